@@ -40,6 +40,14 @@ CHECKS = {
    technique="exhaustive input-domain enumeration: all 1 180 672 permission records x all 35 real rule functions x 4 targets with algebraic oracles (no panic, monotonicity, isolation, id symmetry, root, documented-hierarchy upper bound); plus exhaustive operation x session-state tables on the real System and over TCP",
    text="The complete space of permission records (2^10 global x optional stream record 2^6 x topic table none/empty/2^4) is evaluated by every real rule function; adding any single flag or record must never turn allowed into denied, stream-1/topic-1 records must never open stream 2/topic 2, stream-level outcomes must not depend on which topic id a topic record is attached to, root is allowed everything, and nothing may be allowed that the most generous reading of the documented hierarchy does not grant. Every System operation is run under never-logged-in and stale sessions (must be refused, nothing may change) and as a user with each single-flag record (never performed when its rule says unauthorized); every SDK call is tried over TCP before login and after logout; permission updates and user deletion are observed on an already open second connection; root cannot be deleted or stripped.",
    note="Trusted base: the 35-row reference table of sufficient flags (ambiguities resolved towards 'allowed', so it can only under-report); HTTP routes not covered in this revision."),
+ "C11": dict(cat="model_checking", engine="E-sched + E-enum/journal", design="§5 C11",
+   technique="stateless exploration of task interleavings of the real binary handlers under a controlled scheduler (deviation-bounded, all schedules within the bound), exhaustive fault subsets of failing journal appends, and exhaustive mutation families of valid journals against the real loader",
+   text="(a) The real purge/create/update handlers are entered through the public dispatcher as gated tasks (shared-lock and exclusive-lock handlers mixed); every schedule within the deviation bound is executed. (b) Every subset of failing journal appends in a sequential history of four commands, and a failing append inside a concurrent scenario. After every execution the journal must load with consecutive indices, contain exactly the acknowledged commands, and the server must restart from it. (c) A valid journal (plain and encrypted) is mutated exhaustively - every byte x 8 bit flips (thorough: 255 values), every truncation length, every entry removed / duplicated / re-appended, every transposition, appended garbage - and the loader must answer with an error or a prefix of the true history, never another history, never a panic, never a multi-GiB allocation.",
+   note="Trusted base: the scheduler (gates + single blocking-pool thread parked during each gated poll; replay self-check per job); write failures are produced by moving the journal file away for the duration of a command; loader jobs run under a 3 GiB address-space limit. The completion order of operations already inside tokio's blocking pool is not explored (DESIGN.md §7)."),
+ "C12": dict(cat="model_checking", engine="E-sched", design="§5 C12",
+   technique="stateless exploration of task interleavings of the real System under a controlled scheduler: two producers, a consumer, optional flush/save task and the server's own persister / segment-close tasks as gated tasks; all schedules within a deviation bound x storage configurations; linearisation oracle",
+   text="Every schedule within the deviation bound (every preemption is a deviation) of producers A and B, a consumer polling twice and an optional flush or background-save task is executed for 12-16 storage configurations (wait / no-wait, cache, threshold, segment size). Decision points are every Pending of a task plus hook points in the write path; the server's persister and close tasks are scheduled like the others. Per execution: acknowledged batches exactly once, contiguous, in producer order; no shared offsets; every poll a gap-free run from the requested offset consisting of whole batches; under wait confirmation a batch acknowledged before a poll started is in it.",
+   note="Trusted base: scheduler as for C11; one thread, so no memory-ordering effects; the window between a write being handed to the blocking pool and landing is closed by construction. One open known finding (no-wait: hole while the persister lags)."),
  "C13": dict(cat="exploration", engine="E-enum/codec", design="§5 C13",
    technique="exhaustive boundary-product enumeration of every request type through the SDK encoder and the server's real decoder (plus journal and on-disk encodings), field-by-field comparison of every SDK-decoded response with the server's in-memory entity in bounded state families, and exhaustive malformed-frame families (every cut point, every byte position x masks) watched by a bystander connection and state digests",
    text="All 44 request types are encoded for the full product of per-field boundary values and decoded by the server decoder (re-exported under the hook flag); the decoded request, validate() and the journal / stored-message round trips must agree. Every get/list/poll response is decoded by the SDK over TCP, by id and by name, in a rich and an empty server state and compared field by field with the entity the server holds. Malformed frames - short length prefixes, wrong declared lengths, unknown code, 20 valid requests truncated at every cut point and with every byte (command code included) xor-ed with 3 masks (thorough: all 255) - are sent before and after login; a second authenticated connection must keep answering, and whenever the answer is an error or a closed connection the catalogue and the data directory must be byte-identical; a process death is a violation (breadcrumb names the frame).",
@@ -111,6 +119,8 @@ def main():
         "engines": [
             {"name": "E-seq/partition-log", "path": "/verif/harness/src/pexp.rs", "serves_properties": [p for p in CHECKS if CHECKS[p]["engine"] == "E-seq/partition-log"],
              "kind_free_text": "explicit-state tree search over operation histories; state = history, rebuilt by re-executing the real server on a fresh copy of a journalled template directory; one child OS process per job"},
+            {"name": "E-sched", "path": "/verif/harness/src/sched.rs", "serves_properties": ["C11", "C12"],
+             "kind_free_text": "controlled scheduler over the real async code: logical tasks wrapped in gates, one poll per grant, single blocking-pool thread parked during each gated poll and used as a barrier between decision points; deviation-bounded enumeration of all schedules by re-execution"},
             {"name": "E-seq/groups", "path": "/verif/harness/src/props/grpp.rs", "serves_properties": ["C08"],
              "kind_free_text": "explicit-state tree search over group membership / poll histories on the real ConsumerGroup and the real System"},
             {"name": "E-seq/catalogue", "path": "/verif/harness/src/cexp.rs", "serves_properties": [p for p in CHECKS if CHECKS[p]["engine"] == "E-seq/catalogue"],
